@@ -67,7 +67,7 @@ package olla
 //@   requires s != nil && s.BaseProxyComponents != nil && s.configuration != nil
 //@   requires w != nil
 //@   requires resp != nil && resp.Body != nil
-//@   requires rlog != nil
+//@   requires rlog != nil && clientCtx != nil && upstreamCtx != nil
 //@   modifies ghost(w).started, ghost(w).status, gvar unflushed, gvar wBytes, gvar rBytes, gvar evBroken, gvar streamMode, ghost remaining, ghost backing
 //@   loop 1 invariant isStreaming == streamMode
 // C18 / C02: a relay that completes (nil error) with the client still there has written exactly the bytes it read
@@ -87,7 +87,7 @@ package olla
 //@ func (s *Service) checkContexts
 //@   property C18 C02
 //@   safety
-//@   requires s != nil && s.BaseProxyComponents != nil && s.configuration != nil && state != nil && rlog != nil && readDeadline != nil
+//@   requires s != nil && s.BaseProxyComponents != nil && s.configuration != nil && state != nil && rlog != nil && readDeadline != nil && clientCtx != nil && upstreamCtx != nil
 //@   modifies state.clientDisconnected, state.disconnectTime
 //@   ensures !errorsAs(res, "*core.ResponseStartedError") && !errorsIs(res, core.ErrCircuitOpen)
 //@   ensures old(state.clientDisconnected) ==> state.clientDisconnected
@@ -102,7 +102,7 @@ package olla
 
 //@ func (s *Service) proxyToSingleEndpoint
 //@   property C01 C02 C04 C15 C19
-//@   requires s != nil && s.BaseProxyComponents != nil && s.configuration != nil && w != nil && rlog != nil && r != nil && r.URL != nil && endpoint != nil && endpoint.URL != nil && stats != nil
+//@   requires s != nil && s.BaseProxyComponents != nil && s.configuration != nil && w != nil && rlog != nil && r != nil && r.URL != nil && endpoint != nil && endpoint.URL != nil && stats != nil && ctx != nil
 //@   requires !ghost(w).started && ghost(w).hdr != nil && breakersOK(s)
 //@   uses rse_not_circuit
 //@   modifies *
@@ -162,7 +162,7 @@ package olla
 // ProxyFunc contract the retry loop relies on (requires about the captured s and rlog hold where the literal is made)
 //@ func (s *Service) ProxyRequestToEndpointsWithRetry$1
 //@   property C02 C05 C19
-//@   requires s != nil && s.BaseProxyComponents != nil && s.configuration != nil && w != nil && rlog != nil && r != nil && r.URL != nil && endpoint != nil && endpoint.URL != nil && stats != nil
+//@   requires s != nil && s.BaseProxyComponents != nil && s.configuration != nil && w != nil && rlog != nil && r != nil && r.URL != nil && endpoint != nil && endpoint.URL != nil && stats != nil && ctx != nil
 //@   requires !ghost(w).started && ghost(w).hdr != nil && breakersOK(s)
 //@   modifies *
 //@   ensures recSuccess + recFailure == old(recSuccess) + old(recFailure) + 1
